@@ -341,8 +341,14 @@ theorem filtEntryTarget_skel (c : Ctx) : (v v' : V) → filtEntryTarget c v = so
     simp only [filtEntryTarget] at h
     obtain ⟨x, hx, rfl⟩ := map_some h
     simp only [skel, filtEntries_skel c es x hx]
-  | .leaves ls, v', h => by simp only [filtEntryTarget, Option.some.injEq] at h; subst h; rfl
-  | .slice vs, v', h => by simp only [filtEntryTarget, Option.some.injEq] at h; subst h; rfl
+  | .leaves ls, v', h => by
+    simp only [filtEntryTarget] at h
+    obtain ⟨l', hl, rfl⟩ := map_some h
+    simp only [skel, filterStrs_skel hl]
+  | .slice vs, v', h => by
+    simp only [filtEntryTarget] at h
+    obtain ⟨x, hx, rfl⟩ := map_some h
+    simp only [skel, filtMapSlice_skel c vs x hx]
   | .nilPtr, v', h => by simp only [filtEntryTarget, Option.some.injEq] at h; subst h; rfl
   | .ptr v, v', h => by simp only [filtEntryTarget, Option.some.injEq] at h; subst h; rfl
   | .iface v, v', h => by simp only [filtEntryTarget, Option.some.injEq] at h; subst h; rfl
@@ -555,8 +561,8 @@ def guardedEntryTarget (c : Ctx) : V → Bool
   | .struct fs => guardedFields c true fs
   | .leaf _ => true
   | .map es => guardedEntries c es
-  | .leaves ls => ls.all cleanLeaf
-  | .slice vs => clean (.slice vs)
+  | .leaves _ => true
+  | .slice vs => guardedMapSlice c vs
   | .nilPtr => true
   | .ptr v => clean v
   | .iface v => clean v
@@ -995,17 +1001,16 @@ theorem filtEntryTarget_clean (c : Ctx) : (v v' : V) → filtEntryTarget c v = s
     obtain ⟨x, hx, rfl⟩ := map_some h
     simp only [guardedEntryTarget] at g
     simp only [plains, filtEntries_clean c es x hx g]
-  | .leaves ls, v', h, g => by
-    simp only [filtEntryTarget, Option.some.injEq] at h
-    subst h
-    simp only [guardedEntryTarget] at g
+  | .leaves ls, v', h, _ => by
+    simp only [filtEntryTarget] at h
+    obtain ⟨l', hl, rfl⟩ := map_some h
     simp only [plains]
-    exact all_clean_flatMap g
+    exact filterStrs_clean hl (by simp [protects, mapTag_protects])
   | .slice vs, v', h, g => by
-    simp only [filtEntryTarget, Option.some.injEq] at h
-    subst h
+    simp only [filtEntryTarget] at h
+    obtain ⟨x, hx, rfl⟩ := map_some h
     simp only [guardedEntryTarget] at g
-    simpa [plains] using clean_iff.mp g
+    simp only [plains, filtMapSlice_clean c vs x hx g]
   | .nilPtr, v', h, _ => by
     simp only [filtEntryTarget, Option.some.injEq] at h
     subst h; rfl
